@@ -95,6 +95,13 @@ fn covers(ivs: &[(Option<Q>, Option<Q>)], p: &Q, q_: &Q) -> bool {
     }
 }
 
+pub fn family_size_pub(depth: usize, quick: bool) -> u64 {
+    family_size(depth, quick)
+}
+pub fn family_pub(i: u64, depth: usize, quick: bool) -> Case {
+    family(i, depth, quick)
+}
+
 fn check_case(case: &Case, l: &mut Local) {
     let case = &drop_unreferenced(case);
     let m = &case.model;
